@@ -436,7 +436,17 @@ func (e *Exec) extBuiltinC(st *State, c *ssa.CallCommon, fn *ssa.Function, key s
 						var els []Term
 						var sorts []string
 						for i := int64(0); i < at.Len(); i++ {
-							els = append(els, tSelect(tSelect(H, slArr(sv), as), tAdd(slOff(sv), tInt(i)), SStr))
+							el := tSelect(tSelect(H, slArr(sv), as), tAdd(slOff(sv), tInt(i)), SStr)
+							// the argument array of a variadic call is filled by stores right before the call:
+							// take the stored value itself (a small term) instead of reading it back from the heap
+							if e.curFrame != nil && e.curCall == c {
+								if v := varargStore(c, al.Block(), al, i); v != nil {
+									if t, ok := e.val(e.curFrame, st, v).(Term); ok && t.Sort == SStr {
+										el = t
+									}
+								}
+							}
+							els = append(els, el)
 							sorts = append(sorts, SStr)
 						}
 						f := fmt.Sprintf("fpjoin.%d", at.Len())
@@ -627,4 +637,36 @@ func (e *Exec) sortSlice(st *State, args []Value, where string) Value {
 		e.assume(st, Term{fmt.Sprintf("(forall ((si!i Int) (si!j Int)) (! (=> (and (<= 0 si!i) (< si!i si!j) (< si!j %s)) (not %s)) :pattern ((select %s %s) (select %s %s))))", ln, lt.S, newA.S, sx("si!i"), newA.S, sx("si!j")), SBool})
 	}
 	return &Tuple{}
+}
+
+// varargStore: the value stored into element i of the compiler-generated argument array al of the
+// variadic call c, if it is stored in the call's own block (and nowhere else).
+func varargStore(c *ssa.CallCommon, blk *ssa.BasicBlock, al *ssa.Alloc, i int64) ssa.Value {
+	if al.Comment != "varargs" {
+		return nil
+	}
+	var found ssa.Value
+	n := 0
+	for _, ref := range *al.Referrers() {
+		ia, ok := ref.(*ssa.IndexAddr)
+		if !ok {
+			continue
+		}
+		k, ok := ia.Index.(*ssa.Const)
+		if !ok || k.Int64() != i {
+			continue
+		}
+		for _, r2 := range *ia.Referrers() {
+			if s, ok := r2.(*ssa.Store); ok && s.Addr == ia {
+				n++
+				if s.Block() == blk {
+					found = s.Val
+				}
+			}
+		}
+	}
+	if n != 1 {
+		return nil
+	}
+	return found
 }
